@@ -114,6 +114,18 @@ CLAIMED = {
         note=TRUST + " Trusted lemma M8 (induction over call sequences from method contracts). Two markers in symbolic cells.",
         technique="class invariant + method contracts by symbolic execution of the real methods; modular use of the evaluation contract",
         ref="5-C10"),
+    "C11": dict(
+        text="Contract-based verification of the contraction structure of the real solve()/vector_field_solve() of both "
+             "fast-diagonalisation solvers for ALL real values on bounded non-cubic sizes (eigenvector matrices, inverses, "
+             "spectral weights and right-hand side are symbolic; numpy's own tensordot/multi_dot run on them): the result is "
+             "the mode-product formula with the correct axis pairing and V / V^-1 placement, written to the whole output, rhs "
+             "untouched, independent of the spectral buffer's prior content. The matrix assembly, LAPACK's eigen-decomposition "
+             "and the spectral lemma (zero mode last, -Lap_h u = f - mean f, zero mean, real result of the working precision) "
+             "are covered by a BOUNDED native stand-in on small non-cubic grids, labelled as such and not counted as proved.",
+        note=TRUST + " Assumed: LAPACK (eigh, inv), argsort, lemma M9. Sizes of the symbolic part bounded ((2,3),(3,2),(2,3,2); "
+             "thorough adds (3,2,4)); the all-n mode-product abstract domain of the design was not built.",
+        technique="symbolic execution of the real contraction calls on object arrays + exact polynomial identity; bounded native residual check",
+        ref="5-C11"),
     "C12": dict(
         text="Contract-based deductive proof: the real curl/divergence/update closures are COMPOSED symbolically on symbolic "
              "fields of symbolic extent; div(curl)=0, curl-type updates leave div unchanged, 2-D stream-function velocity "
@@ -204,7 +216,7 @@ def main():
                                      "symbolic extent, side-car contracts, obligations discharged by an exact polynomial "
                                      "normaliser, z3 and cvc5; refutations replayed on the natively compiled code")],
         checks=checks,
-        notes="Fix commits in /repo (unguarded, 'fix:' prefix): a1b0777 (boundary penalisation width 1), 78b3125 (stable time step), 4f039fa and the following commit (IO). Known findings: known_findings.json.",
+        notes="Fix commits in /repo (unguarded, 'fix:' prefix): a1b0777 (boundary penalisation width 1), 78b3125 (stable time step), 4f039fa, 73d030e (IO), 567daa2 (fast-diagonalisation eigh). Known findings: known_findings.json.",
         not_applicable=na,
     )
     json.dump(m, open(os.path.join(ROOT, "MANIFEST.json"), "w"), indent=1)
